@@ -330,6 +330,14 @@ Violation ComputeViolation(       // where ax, by >= 0
         by * std::exp(cz / by)};
 }
 
+/// Unary encoding is a dummy constraint without a result variable,
+/// kept for the reformulation graph: nothing to violate.
+template <class VarVec>
+Violation ComputeViolation(
+    const UnaryEncodingConstraint& , const VarVec& ) {
+  return {0.0, 0.0};
+}
+
 /// Compute result of the PL constraint.
 template <class VarVec>
 double ComputeValue(const PLConstraint& con, const VarVec& x) {
